@@ -59,7 +59,12 @@ func genOp(t *rapid.T) chain.Op {
 			}
 		}
 		return op
-	case 6, 7:
+	case 6:
+		return chain.Op{K: chain.OpFlush}
+	case 7:
+		if rapid.Bool().Draw(t, "observeInsteadOfFlush") {
+			return chain.Op{K: chain.OpObserve} // logging / metrics code reads Length(), StatusCode(), RawWriter() ...
+		}
 		return chain.Op{K: chain.OpFlush}
 	case 8:
 		return chain.Op{K: chain.OpHeader, S: rapid.SampledFrom([]string{"X-A", "Content-Type", "Content-Length"}).Draw(t, "hk"), S2: rapid.StringMatching(`[a-z0-9]{1,3}`).Draw(t, "hv")}
